@@ -94,6 +94,19 @@ pub fn run_fault_kind(tr: &mut Trace, c: &Conc, t: i32, hist: &str, syms: &Syms,
                 tr.emit(json!({"ev": "ffinalize", "res": r, "fired": fired_total(&shp, &shx) > f0,
                                "shp": jbytes(&shp.bytes()), "shx": jbytes(&shx.bytes()),
                                "flushedShp": shp.is_flushed(), "flushedShx": shx.is_flushed()}));
+                // a finalize that failed is called again at once when the failure was transient (every other run):
+                // it must complete, and the history that follows must behave as if nothing had happened
+                if r != "ok" && mode != "persistent" && k % 2 == 0 {
+                    shp.heal();
+                    shx.heal();
+                    tr.emit(json!({"ev": "heal"}));
+                    let f0 = fired_total(&shp, &shx);
+                    let wr = w.as_mut().unwrap();
+                    let r2 = res_of(guarded(|| wr.finalize()));
+                    tr.emit(json!({"ev": "ffinalize", "res": r2, "fired": fired_total(&shp, &shx) > f0,
+                                   "shp": jbytes(&shp.bytes()), "shx": jbytes(&shx.bytes()),
+                                   "flushedShp": shp.is_flushed(), "flushedShx": shx.is_flushed()}));
+                }
             }
             _ => {}
         }
